@@ -41,7 +41,7 @@ def repo_fingerprint():
     h = hashlib.sha256()
     for f in sorted(glob.glob(os.path.join(REPO, 'include', 'amc', '*.hpp'))):
         h.update(f.encode()); h.update(open(f, 'rb').read())
-    for f in sorted(glob.glob(os.path.join(VERIF, 'driver', '*'))) + sorted(glob.glob(os.path.join(TOOLS, '*.py'))):
+    for f in sorted(glob.glob(os.path.join(VERIF, 'driver', '*'))) + [os.path.join(TOOLS, t) for t in ('astload.py', 'ctypes_map.py', 'cxx2c.py')]:
         h.update(f.encode()); h.update(open(f, 'rb').read())
     return h.hexdigest()
 
@@ -136,6 +136,29 @@ def load_specs():
                                        ('V_BLK_OK', ['C06'], 'the heap buffer of %s is an outstanding block of exactly capacity elements' % x)]:
                     cur.clauses.append((tg, lab, '__CPROVER_ensures(%s(%s))' % (macro, x)))
                 pending = None
+            elif line.startswith('@POST_OK('):
+                x = line[line.index('(') + 1:line.rindex(')')]
+                for macro, tg, lab in [('V_WORDS_OK', ['C01', 'C05', 'C07'], 'size/capacity words of %s are a reachable encoding' % x),
+                                       ('V_CELL_OK', ['C02', 'C09'], 'every slot of %s below size is alive, every slot above is raw' % x),
+                                       ('V_TOK_OK', ['C02'], 'no tracked element of %s sits in a raw slot' % x),
+                                       ('V_BLK_OK', ['C06'], 'the heap buffer of %s is an outstanding block of exactly capacity elements' % x)]:
+                    cur.clauses.append((tg, lab + ' (when the call returns normally)', '__CPROVER_ensures(l0_exc != 0 || %s(%s))' % (macro, x)))
+                pending = None
+            elif line.startswith('@CTOR('):
+                x = line[line.index('(') + 1:line.rindex(')')]
+                for tg, lab, txt in [
+                    (['C08'], 'construction raises a capacity-limit error exactly when the requested size exceeds the limit (N, or the maximum of the size_type)',
+                     '__CPROVER_ensures(((uint64_t)(%s) > V_LIMIT) == (l0_exc == V_LIMIT_EXC))' % x),
+                    (['C09', 'C02', 'C06'], 'a constructor that throws leaves nothing behind: every element it created is destroyed, every block it obtained is handed back',
+                     '__CPROVER_ensures(l0_exc == 0 || V_CTOR_FAILED(self))'),
+                    (['C01'], 'the constructed vector has the requested size', '__CPROVER_ensures(l0_exc != 0 || V_SIZE(self) == (uint64_t)(%s))' % x),
+                    (['C05'], 'a vector constructed with at most N elements is inline and makes no allocator request',
+                     '__CPROVER_ensures(l0_exc != 0 || (uint64_t)(%s) > V_EMPTY_CAPA || (!V_HEAP(self) && V_CAPA(self) == V_EMPTY_CAPA && g_nalloc == pre_g.nalloc && g_nrealloc == pre_g.nrealloc && g_ndealloc == pre_g.ndealloc))' % x),
+                    (['C18', 'C06', 'C07'], 'a larger one makes exactly one allocator request, capacity max(1.5*N, needed) clamped to the size_type',
+                     '__CPROVER_ensures(l0_exc != 0 || !V_DYNAMIC || (uint64_t)(%s) <= V_EMPTY_CAPA || (V_GREW_ONCE && g_ndealloc == pre_g.ndealloc && V_CAPA(self) == GROW_SPEC(V_EMPTY_CAPA, %s)))' % (x, x)),
+                    (['C09', 'C08'], 'only the documented exception kinds', '__CPROVER_ensures(V_EXC_KINDS)')]:
+                    cur.clauses.append((tg, lab, txt))
+                pending = None
             elif line.startswith('@GROW(') or line.startswith('@GROW_E('):
                 x = line[line.index('(') + 1:line.rindex(')')]
                 first = ('__CPROVER_ensures(((uint64_t)(%s) > V_LIMIT) == (l0_exc == V_LIMIT_EXC))' % x) if line.startswith('@GROW(') else \
@@ -178,6 +201,11 @@ def splice(lowered_text, specs, cnames, subst):
     want = set(cnames)
     found = set()
     loop_owner = None
+    # compiler-generated temporaries of each function (named tmpN by the lowering): '@TMPS' in a loop assigns clause stands for all of
+    # them, so that a loop contract does not depend on how many temporaries the lowering happens to need
+    fn_tmps = {}
+    for mfn in re.finditer(r'/\*@FN (\w+)@\*/(.*?)/\*@ENDFN@\*/', lowered_text, re.S):
+        fn_tmps[mfn.group(1)] = sorted(set(re.findall(r'^\s+[\w \*]+?\b(tmp\d+);', mfn.group(2), re.M)), key=lambda t: int(t[3:]))
     for line in lowered_text.split('\n'):
         m = re.match(r'^/\*@CONTRACT (\w+)@\*/$', line)
         if m:
@@ -229,6 +257,9 @@ def splice(lowered_text, specs, cnames, subst):
                 for text in body:
                     for k, v in subst.items():
                         text = text.replace(k, v)
+                    if '@TMPS' in text:
+                        tl = fn_tmps.get(fn, [])
+                        text = text.replace(', @TMPS', ''.join(', ' + t for t in tl)).replace('@TMPS', ', '.join(tl))
                     out_lines.append(text)
                     clause_map[len(out_lines)] = (fn, spec.props, 'loop contract', text)
                 fnprops[fn] = spec.props
@@ -319,7 +350,7 @@ def build_unit_text(unit, xdir, specs, report):
     head.append('#ifndef CASE_PRED\n#define CASE_PRED 1\n#endif')
     head.append('#include "l0.h"')
     head.append('#include "inv.h"')
-    head.append('uint64_t g_N, g_N2; struct vsnap pre_self, pre_o; struct gsnap pre_g; _Bool g_alias; uint64_t g_src, g_pos, g_pos2, g_cnt; E *pre_p1, *pre_p2;')
+    head.append('uint64_t g_N, g_N2; struct vsnap pre_self, pre_o; struct gsnap pre_g; _Bool g_alias; uint64_t g_src, g_pos, g_pos2, g_cnt; E *pre_p1, *pre_p2; void *g_other;')
     nhead = sum(h.count('\n') + 1 for h in head)
     body = '\n'.join(head) + '\n' + text + '\n#include "l0_globals.c"\n' + 'void harness(void) {\n%s\n  l0_havoc();\n  %s\n}\n' % (decls, call)
     cmap2 = {ln + nhead: v for ln, v in cmap.items() if ln not in ('ordinals', 'fnprops')}
